@@ -1,5 +1,5 @@
 """C13 — every reported observable equals its definition on the current state (plumbing + definition shape)."""
-from ..rules import step, canon, dark, jump, observables, once
+from ..rules import drivers, step, canon, dark, jump, observables, once
 
 META = {
     "title": "Every reported observable equals its definition on the current state",
@@ -30,3 +30,5 @@ def check(ctx):
     ctx.floor("OBSDEF", 9)
     canon.gauge_moves(ctx)
     step.sv_initial_hamiltonian(ctx)
+    once.filter_tolerance(ctx)
+    drivers.observable_dispatch(ctx)
